@@ -31,7 +31,7 @@ int KillPressure__rankForKilling__lambda_sortDescWithKillPrefs(KillPressure *sel
   __CPROVER_ensures(__CPROVER_return_value == DOC_KEY(cgroup_ctx) && ghost_exc == 0) /*@C09*/;
 #define DOC_BETTER(x, f) (PREF(x) > PREF(f) || (PREF(x) == PREF(f) && DOC_KEY(x) > DOC_KEY(f)))
 vec_CgroupContext KillPressure__rankForKilling(KillPressure *self, OomdContext *ctx, vec_CgroupContext cgroups)
-  __CPROVER_requires(self == g_self && cgroups.n <= VEC_MAX && !g_sorted && ghost_exc == 0)
+  __CPROVER_requires(self == g_self && cgroups.n <= VEC_MAX && ghost_exc == 0)
   __CPROVER_assigns(g_copied, g_sorted, g_copy_vid, g_copy_src)
   __CPROVER_ensures(__CPROVER_return_value.n == cgroups.n && ghost_exc == 0) /*@C09*/
   __CPROVER_ensures(cgroups.n == 0 || (g_s0 < cgroups.n && vec_CgroupContext__elem(__CPROVER_return_value.vid, 0) == ELEM(cgroups.vid, g_s0))) /*@C09*/
